@@ -267,6 +267,9 @@ def run(ctx) -> None:
     from . import C06
 
     C06.cache_key(ctx)  # consecutive windows of one shape differ in their bound literals only
+    from . import C15
+
+    C15.kind_cast(ctx)  # bounds are interpreted through the ordinal kind's cast: it must land exactly in that kind
     shared.operator_chain(ctx, 'C10.chain', only={'<', '<=', '>', '>='})
     # scope: ordinal bounds (Optional[dsl.Native]) anywhere, and optional ordinal features/specs
     n = shared.r_truthy(
